@@ -42,7 +42,7 @@ Section Canon.
   Qed.
 
   (** what sits below slot [i] of a well-formed shard: the entries whose [d]-th index is [i] *)
-  Lemma slot_content : forall d cs i u x, wf d (Node cs) -> cget i cs = Some u ->
+  Lemma slot_content : forall d (cs : children) i u (x : name * V), wf d (Node cs) -> cget i cs = Some u ->
     (In x (walk u) <-> In x (walk (Node cs)) /\ nth_error (hidx (fst x)) d = Some i).
   Proof.
     intros d cs i u [k v] Hwf Hg. pose proof (proj1 (wf_node hidx d cs) Hwf) as [Hs Hall].
@@ -52,14 +52,14 @@ Section Canon.
       destruct (Hall j t H1) as [Hslot' _]. specialize (Hslot' k v H2). rewrite Hn in Hslot'. inversion Hslot'. congruence.
   Qed.
 
-  Lemma slot_empty : forall d cs i x, wf d (Node cs) -> cget i cs = None ->
+  Lemma slot_empty : forall d (cs : children) i (x : name * V), wf d (Node cs) -> cget i cs = None ->
     In x (walk (Node cs)) -> nth_error (hidx (fst x)) d <> Some i.
   Proof.
     intros d cs i [k v] Hwf Hg Hin Hn. cbn [fst] in Hn.
     destruct (key_under hidx d cs k v i Hwf Hn Hin) as [u [Hu _]]. congruence.
   Qed.
 
-  Lemma walk_nonempty : forall d i u, child_ok hidx d i u -> exists x, In x (walk u).
+  Lemma walk_nonempty : forall d i (u : trie), child_ok hidx d i u -> exists x, In x (walk u).
   Proof.
     intros d i u H. pose proof (child_size_pos hidx d i u H) as Hp. unfold size in Hp.
     destruct (walk u) as [|x r]; [cbn in Hp; lia|]. exists x. left. reflexivity.
